@@ -50,6 +50,8 @@ type Action struct {
 	Stops  []StopSpec  `json:"stops,omitempty"`
 	// Draw: the drawing ops of a "path" action (all 18 verbs, grid coordinates)
 	Draw []ops.Op `json:"draw,omitempty"`
+	// Empty: the path is started and ended at once (no segment at all).
+	Empty bool `json:"empty,omitempty"`
 }
 
 type Case struct {
@@ -130,7 +132,7 @@ func apply(g *generate.Generator, a Action) error {
 		g.NSel()
 	case "path":
 		g.StartPath(a.Adj, f(a, 0), f(a, 1))
-		if len(a.Draw) == 0 {
+		if len(a.Draw) == 0 && !a.Empty {
 			g.AbsLineTo(f(a, 2), f(a, 3))
 			g.RelLineTo(f(a, 4), f(a, 5))
 			g.AbsQuadTo(f(a, 0), f(a, 3), f(a, 2), f(a, 1))
@@ -347,7 +349,8 @@ func genAction(t *rapid.T) Action {
 	case 9:
 		a := Action{K: "path", Adj: gen.Adj(t, "adj"), F: []ops.F32{grid(t, "x0"), grid(t, "y0"), grid(t, "x1"), grid(t, "y1"), grid(t, "dx"), grid(t, "dy")}}
 		if rapid.Bool().Draw(t, "allverbs") {
-			n := rapid.IntRange(1, 6).Draw(t, "ndraw")
+			n := rapid.IntRange(0, 6).Draw(t, "ndraw") // 0: a path that is started and ended at once
+			a.Empty = n == 0
 			for i := 0; i < n; i++ {
 				k := rapid.SampledFrom(gen.DrawVerbs).Draw(t, "verb")
 				num := func(t *rapid.T, l string) float32 { return gen.Grid(t, l, 30) }
@@ -408,8 +411,21 @@ func TestPipelines(t *testing.T) {
 	harness.Rapid(t, harness.N(4000, 16*48000), func(t *rapid.T) {
 		var c Case
 		c.ViewBox = [4]ops.F32{-32, -32, 32, 32}
-		if rapid.Bool().Draw(t, "vb") {
+		switch rapid.IntRange(0, 3).Draw(t, "vb") {
+		case 1:
 			c.ViewBox = [4]ops.F32{-24, -20, 40, 44}
+		case 2: // the default size at another origin (along one axis only, often)
+			dx, dy := float32(rapid.IntRange(-20, 20).Draw(t, "vbdx")), float32(rapid.IntRange(-20, 20).Draw(t, "vbdy"))
+			if rapid.Bool().Draw(t, "vbx") {
+				dy = 0
+			} else if rapid.Bool().Draw(t, "vby") {
+				dx = 0
+			}
+			c.ViewBox = [4]ops.F32{ops.F32(-32 + dx), ops.F32(-32 + dy), ops.F32(32 + dx), ops.F32(32 + dy)}
+		case 3: // the default box with one member changed
+			c.ViewBox = [4]ops.F32{-32, -32, 32, 32}
+			i := rapid.IntRange(0, 3).Draw(t, "vbmember")
+			c.ViewBox[i] += ops.F32(float32(rapid.IntRange(1, 20).Draw(t, "vbby")) * float32(2*(i/2)-1))
 		}
 		c.Palette = ops.DefaultPalette()
 		if rapid.Bool().Draw(t, "pal") {
